@@ -73,14 +73,21 @@ pub fn permissive_date_to_serial_number(day: i32, month: i32, year: i32) -> Resu
         return Err(DATE_OUT_OF_RANGE_MESSAGE.to_string());
     }
 
+    // The month and day offsets come straight from the user (`DATE(2000, 1E10, 1)`): the
+    // arithmetic must not overflow and chrono's `+`/`-` operators panic out of range
     date = {
-        let month_diff = month - 1;
-        let abs_month = month_diff.unsigned_abs();
-        if month_diff <= 0 {
-            date = date - Months::new(abs_month);
+        let month_diff = i64::from(month) - 1;
+        let Ok(abs_month) = u32::try_from(month_diff.unsigned_abs()) else {
+            return Err(DATE_OUT_OF_RANGE_MESSAGE.to_string());
+        };
+        let shifted = if month_diff <= 0 {
+            date.checked_sub_months(Months::new(abs_month))
         } else {
-            date = date + Months::new(abs_month);
-        }
+            date.checked_add_months(Months::new(abs_month))
+        };
+        let Some(date) = shifted else {
+            return Err(DATE_OUT_OF_RANGE_MESSAGE.to_string());
+        };
         if !is_date_within_range(date) {
             return Err(DATE_OUT_OF_RANGE_MESSAGE.to_string());
         }
@@ -88,13 +95,16 @@ pub fn permissive_date_to_serial_number(day: i32, month: i32, year: i32) -> Resu
     };
 
     date = {
-        let day_diff = day - 1;
-        let abs_day = day_diff.unsigned_abs() as u64;
-        if day_diff <= 0 {
-            date = date - Days::new(abs_day);
+        let day_diff = i64::from(day) - 1;
+        let abs_day = day_diff.unsigned_abs();
+        let shifted = if day_diff <= 0 {
+            date.checked_sub_days(Days::new(abs_day))
         } else {
-            date = date + Days::new(abs_day);
-        }
+            date.checked_add_days(Days::new(abs_day))
+        };
+        let Some(date) = shifted else {
+            return Err(DATE_OUT_OF_RANGE_MESSAGE.to_string());
+        };
         if !is_date_within_range(date) {
             return Err(DATE_OUT_OF_RANGE_MESSAGE.to_string());
         }
